@@ -11,7 +11,8 @@ spec/p2p/Initiator.tla (design model; protocol state advanced on Sent, like the 
   M2   : every violating schedule and a behaviour cover are replayed into the real InitiatorBehavior
   M3   : the emitted Send sequence of the REAL runs (replays + long seeded random schedules with delayed
          confirmations) is validated against ProtocolMonitor by TLC - only this produces the verdict.
-Finding key = protocol/message-kind/emitting-hook-in-responder-view.
+Finding key = protocol/message-kind/emitting-hook-in-responder-view[-before-sent]  (before-sent: an earlier message of
+that protocol to that peer is still unconfirmed, i.e. the initiator's own protocol state lags behind what it emitted).
 """
 import json
 import os
@@ -67,7 +68,7 @@ def drift(ctx, trace, what):
     return d
 
 
-ONE = {"Peers": "{1}", "MaxPeers": "1", "MaxWarm": "1", "MaxHot": "1"}
+ONE = {"Peers": "{1}", "MaxPeers": "1", "MaxWarm": "1", "MaxHot": "1", "MaxInflight": "7"}
 
 
 def run(ctx):
@@ -84,11 +85,11 @@ def run(ctx):
         ("ka", {"SliceProtos": '{"handshake", "keepalive", "peersharing"}', "Cmds": '{"include", "hk"}',
                 "MaxDepth": "9" if t else "8"}),
         ("bf", dict(ONE, SliceProtos='{"handshake", "blockfetch"}', Cmds='{"include", "hk", "reqblocks"}',
-                    Versions="{13}", MaxDepth="12" if t else "10")),
+                    Versions="{13}", MaxDepth="13" if t else "10")),
         ("cs", dict(ONE, SliceProtos='{"handshake", "chainsync"}', Cmds='{"include", "hk", "startsync", "contsync", "demote"}',
-                    MaxDepth="14" if t else "12")),
+                    MaxDepth="15" if t else "12")),
         ("leios", dict(ONE, SliceProtos='{"handshake", "leiosnotify", "leiosfetch"}', Versions="{15}",
-                       Cmds='{"include", "hk", "fetcheb", "fetchebtxs"}', MaxDepth="11" if t else "9")),
+                       Cmds='{"include", "hk", "fetcheb", "fetchebtxs"}', MaxDepth="13" if t else "10")),
     ]
     if t:
         slices.append(("cs2", {"SliceProtos": '{"handshake", "chainsync"}', "Cmds": '{"include", "hk", "startsync", "contsync"}',
